@@ -150,9 +150,13 @@ static void run_C15(const Args &a, long cs) {
 	if (perms.empty()) for (int nd = 1; nd <= 5; nd++) { std::vector<size_t> p(nd); std::iota(p.begin(), p.end(), 0); do perms.push_back(p); while (std::next_permutation(p.begin(), p.end())); }
 	std::vector<size_t> perm;
 	if (cs < (long)perms.size()) perm = perms[cs]; else { int nd = 6; perm.resize(nd); std::iota(perm.begin(), perm.end(), 0); for (int i = nd - 1; i > 0; i--) std::swap(perm[i], perm[r.below(i + 1)]); }
-	int nd = (int)perm.size();
+	// beyond the enumeration: half of the sampled cases are 2-5-d tables whose axes all have the same length and order (only knots, extents and periods tell them apart):
+	// the coefficient array keeps its shape under every permutation there, so nothing but the values shows whether it was transposed
+	bool equal_axes = cs >= (long)perms.size() && r.coin(0.5);
+	if (equal_axes) { int n2 = r.range(2, 5); perm.resize(n2); std::iota(perm.begin(), perm.end(), 0); bool id = true; while (id) { for (int i = n2 - 1; i > 0; i--) std::swap(perm[i], perm[r.below(i + 1)]); for (int i = 0; i < n2; i++) if (perm[i] != (size_t)i) id = false; } count("tables-with-axes-of-equal-length-and-order"); }
+	int nd = (int)perm.size(); unsigned eq_o = (unsigned)r.below(3); int eq_extra = 1 + (int)r.below(3);
 	Spec s; size_t tot = 1;
-	for (int d = 0; d < nd; d++) { unsigned o = (unsigned)((d + r.below(2)) % 4); int nk = 2 * o + 2 + d + (nd <= 4 ? 1 : 0); s.order.push_back(o); s.knots.push_back(gen_knots(r, o, nk, 1, 1.0, d * 1.5, true)); tot *= (size_t)(nk - o - 1); s.periods.push_back(0.25 * (d + 1)); s.extents.push_back(s.knots[d][0] + 0.1 * (d + 1)); s.extents.push_back(s.knots[d].back() - 0.07 * (d + 1)); }
+	for (int d = 0; d < nd; d++) { unsigned o = (unsigned)((d + r.below(2)) % 4); int nk = 2 * o + 2 + d + (nd <= 4 ? 1 : 0); if (equal_axes) { o = eq_o; nk = 2 * (int)o + 2 + eq_extra; } s.order.push_back(o); s.knots.push_back(gen_knots(r, o, nk, 1, 1.0, d * 1.5, true)); tot *= (size_t)(nk - o - 1); s.periods.push_back(0.25 * (d + 1)); s.extents.push_back(s.knots[d][0] + 0.1 * (d + 1)); s.extents.push_back(s.knots[d].back() - 0.07 * (d + 1)); }
 	s.coef.resize(tot); for (size_t i = 0; i < tot; i++) s.coef[i] = (float)(i + 1) + (float)r.U() * 0.5f;
 	// "exactly the original values relocated" is a statement about bits: signed zeros and subnormal values among the coefficients
 	{ static const float sp[] = {-0.f, 0.f, 1e-42f, -1e-45f, -0.f}; size_t nsp = 1 + r.below(std::max<size_t>(1, tot / 6)); for (size_t q = 0; q < nsp; q++) s.coef[r.below(tot)] = sp[r.below(5)]; count("coefficients-with-special-bit-patterns", (long)nsp); }
